@@ -650,6 +650,17 @@ func c08Run(ctx *core.Ctx) {
 			}
 		}
 	}
+	// every name of <= 4 symbols over {' " $ a LF blank} as the only column of New and as the destination of Copy
+	for _, n := range systematicNames() {
+		if ctx.Mine() {
+			execNew(newCase{Cols: []colSpec{{Name: n, Kind: "ints", Len: 1}}})
+		}
+		if ctx.Mine() {
+			c := projCase{Shape: int(ctx.Index() % int64(model.NShapes)), Op: "copy", Cols: []string{n, "a"}}
+			ctx.Exec(c, func() *core.Failure { return runProjCase(c) })
+			ctx.Outcome("proj/copy-systematic-name")
+		}
+	}
 	// part C: string contents (arbitrary bytes, long values, nil vs "")
 	long := strings.Repeat("L", 300)
 	cells := []string{"", nilMark, "\x00", "\xff\xfe", long, "a"}
